@@ -11,6 +11,7 @@ import concurrent.futures as cf
 import copy
 import faulthandler
 import importlib
+import re
 import json
 import multiprocessing
 import os
@@ -272,6 +273,7 @@ def check(prop, tier, base, a):
                     break
     wall_batch = time.time() - t0
     status = 0
+    selftest_failed = False
     notes = []
     if dead:
         print("HARNESS-ERROR %s" % dead)
@@ -311,7 +313,9 @@ def check(prop, tier, base, a):
             selftest = {"sampled": len(idxs), "ok": not bad,
                         "processes": "pool worker, batch parent, fresh interpreter(s) with PYTHONHASHSEED=" + "/".join(hashseeds)}
             if bad:
-                status = 2
+                # (decides only when no violation is confirmed below: a changed tree that keeps state in the process across runs
+                #  makes sampled digests differ, and can still show violations that replay exactly in a fresh interpreter)
+                selftest_failed = True
                 print("HARNESS-NONDETERMINISM digests differ for run indices %s" % bad[:10])
                 if pr.returncode != 0:
                     print(pr.stderr[-1500:])
@@ -393,6 +397,24 @@ def check(prop, tier, base, a):
             env["PYTHONHASHSEED"] = "777"
             pr = subprocess.run([sys.executable, os.path.join(VERIF, "check"), prop, "--replay", path],
                                 env=env, capture_output=True, text=True, timeout=600)
+            if pr.returncode == 3 and ("signature=%s\n" % sig) in pr.stdout:
+                # The same violation, by another path: the run in this worker process differed from the run of the same plan in a
+                # fresh interpreter (a changed tree that keeps state in the process across runs). What counts is the fresh
+                # interpreter: the replay file gets the digest and message seen there, and must then reproduce twice, exactly.
+                mo = re.search(r"digest=([0-9a-f]+) expected=", pr.stdout)
+                mm = re.search(r"^  message=(.*)$", pr.stdout, re.M)
+                if mo:
+                    rep["digest"] = mo.group(1)
+                    if mm:
+                        rep["message"] = v["msg"] = mm.group(1)
+                    rep["found"]["digest_in_batch_process_differed"] = True
+                    with open(path, "w") as f:
+                        json.dump(rep, f, indent=1, default=str)
+                    for _ in range(2):
+                        pr = subprocess.run([sys.executable, os.path.join(VERIF, "check"), prop, "--replay", path],
+                                            env=env, capture_output=True, text=True, timeout=600)
+                        if pr.returncode != 1:
+                            break
             if pr.returncode != 1:
                 print("HARNESS-NONDETERMINISM violation %s did not reproduce in a fresh interpreter (exit %d)\n%s"
                       % (sig, pr.returncode, (pr.stdout + pr.stderr)[-800:]))
@@ -404,7 +426,7 @@ def check(prop, tier, base, a):
             replay_paths.append(path)
             if status == 0:
                 status = 1
-        if status == 0 and (too_disturbed or harness_errors):
+        if status == 0 and (too_disturbed or harness_errors or selftest_failed):
             status = 2
         if unconfirmed and status == 0:
             # violations were seen, but none of them replays in a fresh interpreter: nothing this batch says can be believed.
@@ -412,7 +434,7 @@ def check(prop, tier, base, a):
             #  typically the changed code keeps state in the process across runs, which a fresh interpreter does not have.)
             status = 2
 
-    if (too_disturbed or harness_errors) and status == 0:
+    if (too_disturbed or harness_errors or selftest_failed) and status == 0:
         status = 2
 
     # ---- starved probes (thorough only)
